@@ -74,4 +74,16 @@ theorem fp_int_expected :
      "7a7c254a3415f02f", "20ff4b0e6f6d6c52", "aba02396652872bc", "2a73acf1d4e43dc4",
      "ec9a5cc7ec87be2b", "421fee839b9eeeae", "7831cf94a6653a58"] := by rfl
 
+/-! lib/encoding/timestamp.go -/
+theorem src_scale_expected : src_scale = "{ for i := len(scales) - 1; i > 0; i-- { if v%scales[i] == 0 { return scales[i] } } return 1 }" := by rfl
+
+theorem fp_time_expected :
+    [fp_timeEncodingInit, fp_timeEncoding, fp_timePackUncompressedData, fp_timeConstDeltaEncoding,
+     fp_timeSimple8bEncoding, fp_timeSnappyEncoding, fp_timeDecodingInit, fp_timeDecoding,
+     fp_timeConstDeltaDecoding, fp_timeSimple8bDecoding, fp_timeSnappyDecoding,
+     fp_timeUnpackUncompressedData] =
+    ["db91c7fb52e8d329", "9977179739ad3688", "861deed34d433fec", "660f2f93bb9bab59",
+     "0cb5c19ea2e95407", "ec965b209db92f85", "7ef8cab2c340a418", "3fb166a3538f3ed1",
+     "996f2c318a4b475d", "3428407334e8defe", "1e37c062fd6a10e7", "e00c256c7e505a76"] := by rfl
+
 end OG.C07.Facts
